@@ -4,27 +4,36 @@
    - CSess: a websocket session with the real `adlt remote` (streams, queries, window changes, searches, lookups)
    - CBs  : slice::binary_search / partition_point of the toolchain against the modelled algorithm *)
 From Coq Require Import List NArith Bool.
-From AdltV Require Import Base.Obs Base.Res Base.MachInt Remote.Stream Remote.StreamFast.
+From AdltV Require Import Base.Obs Base.Res Base.MachInt Remote.Stream Remote.StreamFast Remote.StreamFilters.
 Import ListNotations.
 Open Scope N_scope.
 
 (* concrete messages: what the filters and lookups can see *)
 Record cmsg := { c_ecu : N; c_apid : N; c_ctid : N; c_time : N; c_index : N }.
 
-(* concrete filters: (type, field, value); type as in the JSON: 0 positive, 1 negative, 2 marker, 3 event;
-   field 0 ecu, 1 apid, 2 ctid; the filter matches iff the field has the value *)
-Definition cfilt := (N * N * N)%type.
+(* concrete filters as the commands carry them: (type, field, value, enabled);
+   type as in the JSON: 0 positive, 1 negative, 2 marker, 3 event;
+   field 0 ecu, 1 apid, 2 ctid: the criterion is "the field has the value"; field 3: two criteria in one filter,
+   apid = value mod 3 AND ctid = value / 3;
+   enabled 0: "enabled":false, 1: no "enabled" key (default true), 2: "enabled":true.
+   The container is built by the parse loop of StreamContext::from / process_stream_search_params
+   (Remote/StreamFilters.v: only enabled filters are sorted into the list of their kind). *)
+Definition cfilt := (N * N * N * N)%type.
 Definition cf_eval (f : cfilt) (m : cmsg) : bool :=
-  let '(_, field, v) := f in
+  let '(_, field, v, _) := f in
   match field with
   | 0 => c_ecu m =? v
   | 1 => c_apid m =? v
-  | _ => c_ctid m =? v
+  | 2 => c_ctid m =? v
+  | _ => (c_apid m =? v mod 3) && (c_ctid m =? v / 3)
   end.
-Definition of_kind (k : N) (fs : list cfilt) : list (cmsg -> bool) :=
-  map cf_eval (filter (fun f => fst (fst f) =? k) fs).
-Definition cfset (fs : list cfilt) : fset cmsg :=
-  {| f_pos := of_kind 0 fs; f_neg := of_kind 1 fs; f_ev := of_kind 3 fs |}.
+Definition cf_kind (f : cfilt) : fkind :=
+  let '(t, _, _, _) := f in
+  match t with 0 => KPos | 1 => KNeg | 3 => KEvent | _ => KMarker end.
+Definition cf_enabled (f : cfilt) : bool := let '(_, _, _, en) := f in negb (en =? 0).
+Definition cf_parsed (f : cfilt) : pfilter (M:=cmsg) :=
+  {| pf_kind := cf_kind f; pf_enabled := cf_enabled f; pf_crit := cf_eval f |}.
+Definition cfset (fs : list cfilt) : fset cmsg := fset_of (map cf_parsed fs).
 
 (* PART_CHUNK_SIZE of a non-test build *)
 Definition part_chunk : N := 65536.
